@@ -76,6 +76,7 @@ class Spec:
         self.calls = {}
         self.ctl = {}
         self.taint = None
+        self.ambiguous = False
         self.findings = []
         self.failed = False       # a scripted callback exception has propagated
 
@@ -300,6 +301,67 @@ class Spec:
         if k == 'dispatch':
             self.dispatch(t[1], t[2], out)
             return '-'
+        if k == 'via':
+            # a shorthand has exactly the effect and result of the World call for the recorded entity
+            kk, kind, a = int(t[1]), t[2], t[3:]
+            if kk not in self.ctl:
+                raise ScriptedRaise('AttributeError')
+            e = str(self.ctl[kk])
+            if kind in ('add', 'cset'):
+                return self.op(['add', e, a[0]], ret, out)
+            if kind == 'remove':
+                return self.op(['remove', e, a[0]], ret, out)
+            if kind == 'cdel':
+                cands = self.matching(int(e), int(a[0]))
+                ex = self.exact(int(e), int(a[0]))
+                if cands:
+                    # which subtype instance goes is not observable through `del`; take the exact one or,
+                    # for a unique candidate, that one; otherwise leave the choice to later observations
+                    choice = ex if ex is not None else cands[0]
+                    if ex is None and len(cands) > 1:
+                        self.ambiguous = True
+                    self.detach(int(e), self.objty[choice], out)
+                return '-'
+            if kind == 'has':
+                return str(bool(self.matching(int(e), int(a[0]))))
+            if kind in ('get', 'cget'):
+                cands = self.matching(int(e), int(a[0]))
+                ex = self.exact(int(e), int(a[0]))
+                if ex is not None:
+                    return str(ex)
+                if not cands:
+                    return 'None'
+                if ret is None or not ret.isdigit() or int(ret) not in cands:
+                    raise Mismatch('get_component', f'via get({a[0]}) returned {ret}, matching {cands}')
+                return ret
+            if kind == 'comps':
+                return ','.join(map(str, sorted(self.attached.get(int(e), {}).values()))) or '-'
+            if kind == 'delete':
+                return self.op(['delete', e, '0'], ret, out)
+            if kind == 'pget':
+                T = int(a[0])
+                cands = [q for q in self.procs if self.issub(self.objty[q], T)]
+                ex = [q for q in cands if self.objty[q] == T]
+                if ex:
+                    return str(ex[0])
+                if not cands:
+                    return 'None'
+                if ret is None or not ret.isdigit() or int(ret) not in cands:
+                    raise Mismatch('get_processor', f'via pget({T}) returned {ret}, matching {cands}')
+                return ret
+            if kind == 'pset':
+                return self.op(['addproc', a[0], '-'], ret, out)
+            if kind == 'pdel':
+                T = int(a[0])
+                cands = [q for q in self.procs if self.issub(self.objty[q], T)]
+                ex = [q for q in cands if self.objty[q] == T]
+                if cands:
+                    choice = ex[0] if ex else cands[0]
+                    if not ex and len(cands) > 1:
+                        self.ambiguous = True
+                    self.procs.remove(choice)
+                    self.detach_events(choice, None, out)
+                return '-'
         raise ValueError(t)
 
     # ------------------------------------------------------------------ snapshot validation
